@@ -85,7 +85,31 @@ def loop_ok(n):
 
 FINITE_ITERS = ("std::slice::Iter", "std::str::Lines", "std::str::Chars", "std::str::CharIndices", "std::iter::Peekable",
                 "mapping::ProguardRecordIter", "std::vec::IntoIter", "std::collections::btree_map::IntoValues",
-                "std::iter::Take", "std::iter::FilterMap", "std::str::Split", "std::ops::Range")
+                "std::iter::Take", "std::iter::FilterMap", "std::str::Split", "std::ops::Range", "std::array::IntoIter",
+                "std::iter::Enumerate", "std::iter::Flatten", "std::iter::Rev", "std::iter::Chain", "std::option::IntoIter",
+                "RemappedFrameIter")
+
+
+def generic_iter_param_is_finite(fx, path, b):
+    """a loop over an `impl Iterator` parameter: finite when every call of this function in the crate passes an argument whose
+    type is one of the finite in-memory iterators (e.g. format_frames is only ever handed a RemappedFrameIter)"""
+    idxs = [i for i, prm in enumerate(b["params"]) if (prm.get("ty") or "").startswith("impl ") and "Iterator" in (prm.get("ty") or "")]
+    if not idxs:
+        return False
+    n_calls = 0
+    for q, bb in fx.bodies.items():
+        if bb["krate"] != "proguard":
+            continue
+        for n in F.walk(bb["body"]):
+            if n.get("k") == "Call" and "fn" in n and fx.by_dp.get(n["fn"].get("dp")) == path:
+                n_calls += 1
+                for i in idxs:
+                    if i >= len(n["args"]):
+                        return False
+                    aty = (F.strip(n["args"][i]).get("ty") or "") + " " + (n["args"][i].get("ty") or "")
+                    if not any(t in aty for t in FINITE_ITERS):
+                        return False
+    return n_calls > 0
 
 
 def check_loops(fx, rep, rule, seen, sfx=""):
@@ -99,6 +123,9 @@ def check_loops(fx, rep, rule, seen, sfx=""):
                 n_loops += 1
                 how = loop_ok(n)
                 fin = how is not None and any(t in how for t in FINITE_ITERS)
+                if how is not None and not fin and " over impl " in how and generic_iter_param_is_finite(fx, p, b):
+                    fin = True
+                    how += " (every local caller passes a finite iterator)"
                 rep.check(rule + sfx, "%s/loop/%s/%s" % (rule, C.short_fn(p), (how or "unrecognised").split(" over ")[-1]),
                           fin, loc=F.loc(n), found=how or "loop that is not a for/while-let over an iterator",
                           expected="loop driven by a finite in-memory iterator (termination)")
